@@ -450,6 +450,10 @@ class InProtocolBase(ProtocolMixin):
         if self.validator is self.SOFT_VALIDATION and not (
                                         cls.validate_string(cls, value)):
             raise ValidationError(value)
+
+        if not (value in cls.__values__):
+            raise ValidationError(value)
+
         return getattr(cls, value)
 
     def model_base_from_bytes(self, cls, value):
